@@ -17,6 +17,7 @@ pub mod c15;
 pub mod c16;
 pub mod c17;
 pub mod c18;
+pub mod c19;
 pub mod c20;
 pub mod tools;
 
@@ -40,6 +41,7 @@ pub fn lookup(id: &str) -> Option<&'static dyn Prop> {
         "C16" => &c16::C16,
         "C17" => &c17::C17,
         "C18" => &c18::C18,
+        "C19" => &c19::C19,
         "C20" => &c20::C20,
         _ => return None,
     })
